@@ -404,11 +404,19 @@ func arithLInt(g *G, ops []string) {
 		c := g.R.randCtxL(30)
 		x := g.R.randL(c.P, 20)
 		y := g.R.randL(c.P, 20)
+		if i%12 == 0 { // quotients and coefficients at the machine-word boundaries: 19/20 digits (2^63, 2^64), 38/39 digits (2^127, 2^128)
+			c.P = []int{18, 19, 20, 38, 39}[g.R.Intn(5)]
+			c.Emax, c.Emin = 100000, -100000
+			x = finDec(g.R.bool(), g.R.near2(), g.R.between(-2, 2))
+			y = finDec(g.R.bool(), bigInt(int64(g.R.between(1, 3))), g.R.between(-1, 1))
+		}
 		gap := g.R.between(-c.P-3, 2*c.P+6)
 		if g.R.Intn(8) == 0 {
 			gap = g.R.between(-150, 150)
 		}
-		y.E = x.E - gap
+		if i%12 != 0 {
+			y.E = x.E - gap
+		}
 		if g.R.Intn(6) == 0 { // trailing zeros (Reduce, exact quotients)
 			k := g.R.between(1, 12)
 			b := bigOfLimbs(x.C)
